@@ -7,6 +7,8 @@ import OrdModel.Index.Run
 import OrdModel.Proofs.IndexSatsWitness
 import OrdModel.Proofs.IndexLiftSatBlock
 import OrdModel.Proofs.IndexLiftSatExactChain
+import OrdModel.Proofs.IndexLiftSatRare
+import OrdModel.Proofs.IndexLiftSatRowsChain
 /-!
 # C02 — every mined sat is in exactly one place and all sat lookups agree
 
@@ -316,6 +318,76 @@ theorem c02_rare_rows_tx_partial (values : List Nat) (inputs : Ranges) (t : TxSa
   split at h
   · cases h; rfl
   · cases h
+
+/-- The only non-common sat of a block's subsidy is its first sat. -/
+theorem c02_rare_sat_in_block (h s : Nat) (h1 : startingSat h ≤ s) (h2 : s < startingSat (h + 1)) :
+    satRare s = true ↔ s = startingSat h := satRare_in_block h s h1 h2
+
+/-- **Ranges are only split, never merged**: in every reachable state (any chain the indexer
+accepts, any configuration with the sat index on) every sat range of every entry lies inside the
+subsidy range of a single block. -/
+theorem c02_reachable_ranges_in_block (cfg : Cfg) (hs : cfg.indexSats = true)
+    (chain : List Block) (hc : ChainHeights chain) (st : State) (evs : List Event)
+    (h : run cfg chain = .ok (st, evs)) :
+    ∀ r ∈ allRanges st.utxo, ∃ b, startingSat b ≤ r.1 ∧ r.2 ≤ startingSat (b + 1) :=
+  (reachable_inBlk cfg hs chain hc st evs h).2
+
+/-- … **so a non-common sat always starts a range**: if the non-common sat `s` sits at satpoint
+`p` then the entry at `p.outpoint` has a range starting with `s` at offset `p.offset` — exactly
+the `(sat, offset)` pair for which the updater writes (`c02_rare_rows_tx_partial`) and the oracle
+`rare_complete` checks the SAT_TO_SATPOINT row. -/
+theorem c02_reachable_rare_starts_range (cfg : Cfg) (hs : cfg.indexSats = true)
+    (chain : List Block) (hc : ChainHeights chain) (st : State) (evs : List Event)
+    (h : run cfg chain = .ok (st, evs)) (s : Nat) (p : SatPoint) (hat : SatAt st.utxo s p)
+    (hr : satRare s = true) :
+    ∃ e, (p.outpoint, e) ∈ st.utxo ∧ (s, p.offset) ∈ rareOf e.ranges 0 := by
+  obtain ⟨e, hm, hse⟩ := hat
+  have hall := (reachable_inBlk cfg hs chain hc st evs h).2
+  have hae : AllInBlk e.ranges := by
+    intro r hr'
+    apply hall r
+    simp only [allRanges, List.mem_flatMap]
+    exact ⟨(p.outpoint, e), hm, hr'⟩
+  have := rare_starts_range e.ranges hae 0 p.offset s hse hr
+  refine ⟨e, hm, ?_⟩
+  simp only [rareOf, List.mem_filter]
+  exact ⟨by simpa using this, hr⟩
+
+/-- **Rare-sat table, completeness — every reachable state**, duplicate txids included: a
+non-common sat that sits at satpoint `p` is reported at `p` by `rare_sat_satpoint`.  (Chain
+hypothesis `ChainPlain`: no all-zero txid, and only a block's first transaction may name the
+null / unbound outpoint as an input — otherwise LostSats and the null entry drift apart and the
+offsets of lost rare sats are wrong.)  Proof: every entry's non-common range starts have their
+rows (`RowsInv`, carried through `indexTx`'s `setRare`, the lost-range rows and the commit; rows
+of other entries are untouched because no sat is in two places), and a non-common sat starts a
+range (`c02_reachable_rare_starts_range`). -/
+theorem c02_reachable_rare_complete (cfg : Cfg) (hs : cfg.indexSats = true)
+    (chain : List Block) (hc : ChainHeights chain) (hp : ChainPlain chain) (st : State) (evs : List Event)
+    (h : run cfg chain = .ok (st, evs)) (s : Nat) (p : SatPoint) (hat : SatAt st.utxo s p)
+    (hr : satRare s = true) : rareSatSatpoint st s = some p := by
+  obtain ⟨e, hm, hso⟩ := c02_reachable_rare_starts_range cfg hs chain hc st evs h s p hat hr
+  have := (reachable_rows cfg hs chain hc hp st evs h).rows p.outpoint e hm s p.offset hso
+  simpa [rareSatSatpoint] using this
+
+/-- **The rare-sat clause** for every reachable state of a chain without duplicate txids: for a
+non-common sat mined so far, the rare-sat table and the partition (hence `find`, `c02_find_iff`)
+report the same place — `rare_sat_satpoint s = some p` iff `s` is the sat at `p`.  (Under
+duplicate txids the "only if" direction is false: next theorem.) -/
+theorem c02_reachable_rare_sat_clause (cfg : Cfg) (hs : cfg.indexSats = true)
+    (chain : List Block) (hc : ChainHeights chain) (hf : ChainFresh [] chain) (hp : ChainPlain chain)
+    (st : State) (evs : List Event) (h : run cfg chain = .ok (st, evs))
+    (s : Nat) (hm : s < startingSat st.height) (hr : satRare s = true) (p : SatPoint) :
+    rareSatSatpoint st s = some p ↔ SatAt st.utxo s p := by
+  constructor
+  · intro hrow
+    obtain ⟨inv, _⟩ := reachable_exact cfg hs chain hc hf st evs h
+    obtain ⟨p0, _, hat0⟩ := c02_find_mined_found st inv s hm
+    have := c02_reachable_rare_complete cfg hs chain hc hp st evs h s p0 hat0 hr
+    rw [hrow] at this
+    cases this
+    exact hat0
+  · intro hat
+    exact c02_reachable_rare_complete cfg hs chain hc hp st evs h s p hat hr
 
 set_option maxRecDepth 100000 in
 /-- **Finding** (the rare-sat clause is false under duplicate txids).  Blocks 1 and 2 carry
